@@ -70,20 +70,38 @@ class CHECK(core.Check):
             "lets only 0..200 bytes through per service pass (requests and responses arrive split at arbitrary byte "
             "positions; every cut position 1..40/90 exhaustively); schedule = random string "
             "of client/server serviceAll calls (runs of one side, strict alternation, server-first) followed by enough "
-            "alternation to finish; non-trivial = N >= 2 and all N responses delivered; distinct by content")
+            "alternation to finish; 30% of the cases are pipelines of 2-5 requests (any response kinds) in which one or two "
+            "requests carry `Connection: close` at any position (every position of 2-5 request pipelines and every response "
+            "kind of the close request exhaustively; some with a throttled wire); non-trivial = N >= 2 and all N responses "
+            "delivered (close pipelines: the run settled and the responses up to the close request were delivered); "
+            "distinct by content")
     TRUSTED = ["correspondence: real Patron + real Valet of $IOFLO_REPO (all real HTTP classes; tcp Client/Server/Incomer "
                "subclasses in which only open/accept are replaced) over socket.socketpair doubles, DNS double, scripted "
                "application; per-serviceAll comparison of delivered/served counts with the Lean model, final comparison of "
                "the delivered responses and of the framing of every head on the wire (read by an independent byte reader)",
                "the model describes the code as repaired by fixes/D17 (Responder.reset recomputes chunkable) and fixes/D31b (delivered body "
-               "is a copy)"]
+               "is a copy)",
+               "pipelines with `Connection: close` are compared with the pipeline-level model on their outcome (requests handed to "
+               "the application, connection left open or closed by the server, delivered responses), under random schedules and "
+               "throttled wires; the relay double passes the server's close on (the client then reads end of stream and meets EPIPE "
+               "on a later send — a transport error that, per C25, propagates out of Patron.serviceAll: tolerated by the oracle "
+               "exactly when requests were left to send after the close request)"]
     PARTIAL = ["arrival in fragments is exercised against the real code with a throttled wire but compared with the model "
                "and judged by the oracle only on the outcome (the per-pass trace is compared for unthrottled cases): the "
                "model is message-level, independence of the split points is C29's theorem",
                "message-level model: response heads and chunk framing are abstract items (their byte-level round trip is C30); "
-               "one connection, HTTP/1.1 requests without 'Connection: close', applications that call start_response once "
-               "and yield at least Content-Length bytes; timeouts, TLS, server sent events, errors raised by the "
-               "application and connection loss are not modelled"]
+               "one connection, HTTP/1.1 requests, applications that call start_response once and yield at least Content-Length "
+               "bytes; timeouts, TLS, server sent events and connection loss are not modelled",
+               "`Connection: close` is modelled at the level of whole requests (pipeline model: one request after the other, as "
+               "Patron sends them): that the outcome does not depend on the order of the two parties' service calls is proved "
+               "for pipelines without close requests (C31_n_in_n_out_ordered + C31_pipeline_agrees_when_good) and exercised, "
+               "not proved, for pipelines with them",
+               "outside the property's quantifier, observed on the unchanged code and NOT part of the generator or theorems: an "
+               "application that raises before start_response makes every later Valet.serviceAll raise AssertionError; one that "
+               "raises after start_response is answered as a complete (empty or truncated) 200; one that yields fewer bytes than "
+               "its Content-Length leaves the client waiting for ever (later requests never sent) — the pipeline model only "
+               "says that such a pipeline stops there; a yield before start_response raises AssertionError out of serviceAll "
+               "(proposed repairs, not applied: fixes/D31c, D31e, D31f)"]
     TECHNIQUE = ("Lean 4 theorems over a two-party state machine with FIFO wires (invariant over all schedules, progress "
                  "under alternation) + differential correspondence against the real client and server under random schedules")
     LEVEL_TEXT = ("Proved on the model for every application (that yields at least the Content-Length it announces, and no "
@@ -96,13 +114,21 @@ class CHECK(core.Check):
                   "its own request (C31_responses_in_request_order, by a three-phase invariant over both parties and both "
                   "wires); and after any prefix schedule followed by sum(yields+4) alternations all N responses have been "
                   "delivered and the client is idle (C31_n_in_n_out_ordered, by a rank that no step increases and every "
-                  "client+server pair lowers).")
+                  "client+server pair lowers). `Connection: close` inside a pipeline (pipeline-level model, every application, any "
+                  "positions): the server handles exactly the requests up to and including the first that ends the pipeline, none "
+                  "after it, the deliveries are what the client makes of the items written for each handled request, and the "
+                  "server closes iff a handled request asked for it (C31_pipeline_stops_at_first_end); for well-behaved "
+                  "applications every request up to and including the first close request is answered with its expected "
+                  "response, in order, and the connection is closed iff some request asked for it (C31_close_ends_pipeline); "
+                  "every head written is length- or chunk-framed (C31_pipeline_responses_framed); without close requests the "
+                  "pipeline model delivers exactly the step model's responses (C31_pipeline_agrees_when_good).")
     LEVEL_NOTE = ("Trusted: Lean kernel; axioms propext, Classical.choice, Quot.sound; hand transcription of Patron.serviceAll, "
                   "Valet.serviceAll, Responder (as repaired by fixes/D17, D31b) validated by the correspondence runs; socket-pair "
                   "and DNS doubles; the kernel's TCP only in the loopback repetition.")
 
     def __init__(self):
         self._loop = {"run": 0, "ok": 0, "skipped": None}
+        self._client_gone = {}
 
     # ------------------------------------------------------------------ generation
     def _app(self, rng):
@@ -163,9 +189,21 @@ class CHECK(core.Check):
             case["quota"] = q + [-1] * (len(case["schedule"]) - len(q))
         return case
 
+    def _one_events(self, rng):
+        """a pipeline of 2-5 requests (any response kinds) some of which carry `Connection: close`, at any positions"""
+        n = rng.choice([2, 3, 3, 4, 5])
+        apps = [self._app(rng) for _ in range(n)]
+        for i in rng.sample(range(n), rng.choice([1, 1, 1, 2])):
+            apps[i]["close"] = True
+        case = {"n": n, "apps": apps, "schedule": self._schedule(rng, apps), "events": True}
+        if rng.random() < 0.3:
+            case["quota"] = [rng.choice([-1, 1, 7, 30, 200]) for _ in range(len(case["schedule"]) // 2)] + \
+                            [-1] * (len(case["schedule"]) - len(case["schedule"]) // 2)
+        return case
+
     def generate(self, rng, n, tier):
         for _ in range(n):
-            yield self._one(rng)
+            yield self._one_events(rng) if rng.random() < 0.3 else self._one(rng)
 
     def exhaustive(self, tier):
         """every pair (and, thorough, triple) of response kinds in sequence, strict alternation"""
@@ -182,6 +220,20 @@ class CHECK(core.Check):
         for cut in range(1, 90 if tier == "thorough" else 40):
             sched = "cs" * 40
             yield {"n": 2, "apps": [kinds[1], kinds[0]], "schedule": sched, "quota": [cut, cut, cut, cut] * 10 + [-1] * 40}
+        # `Connection: close` at every position of 2-5 request pipelines, for every kind of response to the close request
+        good = {"cl": 3, "pieces": ["616263"], "status": 200, "head": False}
+        stream = {"cl": None, "pieces": ["6162", "63"], "status": 200, "head": False}
+        for n in (2, 3, 4, 5):
+            for pos in range(n):
+                for ev in (kinds if (tier == "thorough" or n <= 3) else kinds[:3]):
+                    apps = [json.loads(json.dumps(stream if (j % 2) else good)) for j in range(n)]
+                    apps[pos] = dict(json.loads(json.dumps(ev)), close=True)
+                    yield {"n": n, "apps": apps, "schedule": "cs" * (6 * n + 6), "events": True}
+        for first in range(3):            # two close requests in one pipeline: only the first counts; server-first schedules
+            apps = [json.loads(json.dumps(good)) for _ in range(4)]
+            apps[first]["close"] = True
+            apps[3]["close"] = True
+            yield {"n": 4, "apps": apps, "schedule": "sscc" + "cs" * 30, "events": True}
         if tier == "thorough":       # every schedule prefix of length <= 7 for a fixed + streamed pair
             for k in range(8):
                 for bits in itertools.product("cs", repeat=k):
@@ -241,8 +293,11 @@ class CHECK(core.Check):
 
     def _drive(self, case, p, valet, served, steps, wire, sleep=False, net=None):
         import time
+        from ioflo.aid.odicting import odict
         for i in range(case["n"]):
-            p.request(method="HEAD" if case["apps"][i].get("head") else "GET", path="/r%d" % i)
+            p.request(method="HEAD" if case["apps"][i].get("head") else "GET", path="/r%d" % i,
+                      headers=odict([("Connection", "close")]) if case["apps"][i].get("close") else odict())
+        client_gone = None     # pipelines with `Connection: close`: the client's send on the closed connection raised
         err = None
         quota = case.get("quota") or [-1] * len(case["schedule"])
         for ch, qt in zip(case["schedule"], quota):
@@ -250,7 +305,13 @@ class CHECK(core.Check):
                 if ch == "c":
                     if net is not None:
                         net.move("s2c", qt)
-                    p.serviceAll()
+                    if client_gone is None:
+                        try:
+                            p.serviceAll()
+                        except OSError as ex:
+                            if not case.get("events"):
+                                raise
+                            client_gone = type(ex).__name__      # transport error after the server's close (C25): judged by the oracle
                 else:
                     if net is not None:
                         net.move("c2s", qt)
@@ -271,6 +332,31 @@ class CHECK(core.Check):
                     err = "err " + type(ex).__name__
                     break
                 time.sleep(0.0005)
+        if case.get("events"):
+            # pipelines with `Connection: close`: only the outcome is compared (pipeline-level model); let everything settle
+            for _ in range(8):
+                if err:
+                    break
+                try:
+                    if net is not None:
+                        net.move("s2c", -1)
+                    if client_gone is None:
+                        try:
+                            p.serviceAll()
+                        except OSError as ex:
+                            client_gone = type(ex).__name__
+                    if net is not None:
+                        net.move("c2s", -1)
+                    valet.serviceAll()
+                except Exception as ex:
+                    err = "err " + type(ex).__name__
+            ds = []
+            for r in p.responses:
+                m = re.fullmatch(r"/r(\d+)", r["request"]["path"])
+                ds.append("%d %s %s" % (int(m.group(1)) if m else -1, r["headers"].get("x-req", "-1"), bytes(r["body"]).hex() or "-"))
+            self._client_gone[core.case_key(case)] = client_gone
+            return ["handled %d alive %d D %d%s%s" % (served["n"], 1 if len(valet.servant.ixes) else 0, len(ds),
+                                                      "".join(" " + d for d in ds), " " + err if err else "")]
         delivered = []
         errored = 0
         for r in p.responses:
@@ -294,12 +380,19 @@ class CHECK(core.Check):
         return self._run(case)
 
     def requests(self, case):
+        if case.get("events"):
+            blocks = ["A %s %d %d %d %d %s" % ("~" if x["cl"] is None else x["cl"], 1 if x.get("status", 200) in (204, 304) else 0,
+                                               1 if x.get("head") else 0, 1 if x.get("close") else 0, len(x["pieces"]),
+                                               " ".join(p or "-" for p in x["pieces"])) for x in case["apps"]]
+            return [("pipe %d %s" % (case["n"], " ".join(blocks))).replace("  ", " ").strip()]
         a = " ".join("A %s %d %d %d %s" % ("~" if x["cl"] is None else x["cl"], 1 if x.get("status", 200) in (204, 304) else 0,
                                            1 if x.get("head") else 0, len(x["pieces"]),
                                            " ".join(p or "-" for p in x["pieces"])) for x in case["apps"])
         return [("ka %d %s S %s" % (case["n"], a, case["schedule"])).replace("  ", " ")]
 
     def model_post(self, case, replies):
+        if case.get("events"):
+            return replies
         if case.get("quota") and replies:
             return ["- |" + replies[0].split("|", 1)[1]]
         return replies
@@ -322,7 +415,42 @@ class CHECK(core.Check):
         return out
 
     def oracle(self, case, out):
+        if case.get("events"):
+            return self._judge_events(case, out[0] if out else "")
         return self._judge(case, out[0] if out else "")
+
+    def _judge_events(self, case, line):
+        """a pipeline with `Connection: close` requests: the requests up to and including the first close request are
+        answered in order, each with its own response; the server then closes the connection; no later request is handled"""
+        want = self._expected(case)
+        if want is None:
+            return None
+        if line.startswith("HARNESS-EXC"):
+            return line
+        m = re.fullmatch(r"handled (\d+) alive (\d) D (\d+)((?: -?\d+ -?\d+ \S+)*)( err \S+)?", line)
+        if not m:
+            return "unreadable outcome: %s" % line[-200:]
+        if m.group(5):
+            return "a service loop raised:%s" % m.group(5)
+        closes = [i for i, a in enumerate(case["apps"]) if a.get("close")]
+        handled = closes[0] + 1 if closes else case["n"]
+        gone = self._client_gone.get(core.case_key(case))
+        if gone and not (closes and closes[0] + 1 < case["n"]):
+            return "Patron.serviceAll raised %s although no request was left to send on a closed connection" % gone
+        t = m.group(4).split()
+        got = [" ".join(t[i:i + 3]) for i in range(0, len(t), 3)]
+        if int(m.group(1)) != handled:
+            return "the server handed %s requests to the application, expected %d (nothing after the first request with " \
+                   "Connection: close)" % (m.group(1), handled)
+        if len(got) != handled:
+            return "%d responses delivered, expected those of the first %d requests; delivered: %s" % (len(got), handled, got)
+        for i in range(handled):
+            if got[i] != want[i]:
+                return "response %d is (request, tag, body) = %s, expected %s" % (i, got[i][:80], want[i][:80])
+        if int(m.group(2)) != (0 if closes else 1):
+            return "the server left the connection %s, expected %s" % ("open" if m.group(2) == "1" else "closed",
+                                                                       "closed (Connection: close)" if closes else "open")
+        return None
 
     def _judge(self, case, line, check_framing=True):
         want = self._expected(case)
@@ -353,9 +481,15 @@ class CHECK(core.Check):
 
     # ------------------------------------------------------------------ bookkeeping
     def nontrivial(self, case, out):
+        if case.get("events"):
+            return case["n"] >= 2 and bool(out) and " err " not in out[0] and out[0].startswith("handled") \
+                and self._expected(case) is not None
         return case["n"] >= 2 and self._expected(case) is not None and re.search(r"final 0 0 %d " % case["n"], out[0]) is not None
 
     def bucket(self, case, out):
+        if case.get("events"):
+            ev = "".join("c" if a.get("close") else "-" for a in case["apps"])
+            return "close:n%d:%s:%s" % (case["n"], ev, (out[0].split(" D ")[0] if out else "?"))
         kinds = "".join("H" if a.get("head") else "N" if a.get("status", 200) != 200 else "E" if not any(a["pieces"])
                         else ("L" if a["cl"] is not None else "S") for a in case["apps"])
         return "n%d:%s%s" % (case["n"], kinds if len(kinds) <= 3 else kinds[:3] + "+", ":split" if case.get("quota") else "")
